@@ -140,3 +140,65 @@ Theorem leaf_records_value t v e a c i :
 Proof.
   intros Hh H. destruct t; try contradiction; simpl in H; crush H.
 Qed.
+
+(* ------------------------------------------------------------------ dataclasses: extra and missing on the mapping path *)
+
+(* the unknown keys, in the order of the data (none when extras are allowed) *)
+Fixpoint class_extra_spec (fs : list (fld * ty)) (ae : bool) (kvs : list (pyval * pyval)) : list pyval :=
+  match kvs with
+  | [] => []
+  | (k, _) :: r =>
+      match find_field k fs with
+      | None => if ae then class_extra_spec fs ae r else k :: class_extra_spec fs ae r
+      | Some _ => class_extra_spec fs ae r
+      end
+  end.
+
+(* some key of the data binds to the field called n *)
+Definition name_bound (fs : list (fld * ty)) (kvs : list (pyval * pyval)) (n : string) : bool :=
+  existsb (fun kv => match find_field (fst kv) fs with Some (g, _) => String.eqb n (f_name g) | None => false end) kvs.
+
+(* the required fields no key binds to, in declaration order *)
+Definition class_missing_spec (fs : list (fld * ty)) (kvs : list (pyval * pyval)) : list string :=
+  map f_name (filter (fun f => f_init f && negb (name_bound fs kvs (f_name f)) && negb (has_default f)) (map fst fs)).
+
+Lemma smem_eqb_true n m seen : String.eqb n m = true -> smem m seen = true -> smem n seen = true.
+Proof. intros E. apply String.eqb_eq in E. now subst. Qed.
+
+Lemma struct_collect_spec fs ae kvs : forall vals ch ex seen vals' ch' ex' seen',
+  struct_collect tc ce fs ae kvs vals ch ex seen = ROk (vals', ch', ex', seen') ->
+  ex' = (ex ++ class_extra_spec fs ae kvs)%list /\
+  (forall n, smem n seen' = smem n seen || name_bound fs kvs n).
+Proof.
+  induction kvs as [|[k x] kvs IH]; intros vals ch ex seen vals' ch' ex' seen' H; simpl in H.
+  - inversion H; subst. split; [now rewrite app_nil_r|]. intros n. unfold name_bound. simpl. now rewrite orb_false_r.
+  - rewrite with_field_find in H. unfold name_bound. simpl. destruct (find_field k fs) as [[f t]|] eqn:F.
+    + destruct (smem (f_name f) seen) eqn:Sm.
+      * destruct (IH _ _ _ _ _ _ _ _ H) as [E1 E2]. split; [exact E1|]. intros n. rewrite E2. unfold name_bound.
+        destruct (String.eqb n (f_name f)) eqn:En; simpl; [|reflexivity].
+        now rewrite (smem_eqb_true n (f_name f) seen En Sm).
+      * destruct (convert_elem tc ce t x) as [y|e|z]; try discriminate;
+          destruct (IH _ _ _ _ _ _ _ _ H) as [E1 E2]; (split; [exact E1|]); intros n; rewrite E2; unfold name_bound; simpl;
+          destruct (String.eqb n (f_name f)); simpl; try reflexivity; now rewrite orb_true_r.
+    + destruct (IH _ _ _ _ _ _ _ _ H) as [E1 E2]. split.
+      * rewrite E1. destruct ae; [reflexivity|]. now rewrite <- app_assoc.
+      * intros n. rewrite E2. reflexivity.
+Qed.
+
+Theorem class_missing_extra h fs v exp ch act mi ex :
+  pane_seq_gate_collect (kind_of v) = false ->
+  ce (TClass h fs) v = CTree (EProduct exp ch act mi ex) ->
+  ex = class_extra_spec fs (c_allow_extra h) (pairs_of v) /\ mi = class_missing_spec fs (pairs_of v) /\ act = v.
+Proof.
+  intros G H. simpl in H. rewrite G in H.
+  destruct (pane_map_gate_collect (kind_of v)); [|discriminate].
+  destruct (has_fmt FStruct h); [|discriminate].
+  destruct (struct_collect tc ce fs (c_allow_extra h) (pairs_of v) [] [] [] []) as [[[[vals' ch'] ex'] seen']|z] eqn:L; [|discriminate].
+  destruct (struct_collect_spec _ _ _ _ _ _ _ _ _ _ _ L) as [E1 E2]. simpl in E1.
+  assert (M : missing_required (map fst fs) seen' = class_missing_spec fs (pairs_of v)).
+  { unfold missing_required, class_missing_spec. f_equal. apply filter_ext. intros f. now rewrite E2. }
+  rewrite M in H.
+  destruct ch', ex', (class_missing_spec fs (pairs_of v)) eqn:Ms; try (inversion H; subst; repeat split; auto; fail).
+  unfold guard_c in H. destruct (construct h (map fst fs) vals') as [[u|e]|]; simpl in H; try discriminate;
+    repeat (match type of H with context [if ?c then _ else _] => destruct c end); discriminate.
+Qed.
